@@ -125,17 +125,21 @@ def ord4_on_bodies(ctx, bodies):
 # ------------------------------------------------------------------------------------ FLW-3
 def flw3_storage_errors_not_dropped(ctx):
     ctx.rule('FLW-3', 'no BlobWriter::store/delete result is dropped: consumed by ?, unwrap, match '
-                      'or returned', floor=10)
+                      'or returned', floor=4)
     P = ctx.P
+    seen_m = set()
     for body, blk, t in P.call_sites(lambda f: blobwriter_method(f) in ('store', 'delete')):
         if blk.cleanup:
             continue
         du = DefUse(body)
         use = classify_result_use(body, du, t)
         m = blobwriter_method(t.func)
+        seen_m.add(m)
         ctx.check('FLW-3', '%s|%s' % (body.name, m),
                   use['kind'] in ('try', 'unwrap', 'match', 'returned'),
                   'result of BlobWriter::%s is %s' % (m, use['kind']), where(t))
+    ctx.require({'store', 'delete'} <= seen_m, 'FLW-3: no BlobWriter::store or no BlobWriter::delete call '
+                                               'site found (%s)' % sorted(seen_m))
 
 
 # ------------------------------------------------------------------------------------ ORD-3
@@ -641,7 +645,7 @@ WHO_WRITE_TABLE = {
 
 def who1_who_may_remove(ctx):
     ctx.rule('WHO-1', 'file removal happens only in the blob backend; BlobWriter::delete is called '
-                      'only by the flush tail and recovery', floor=6)
+                      'only by the flush tail and recovery', floor=3)
     P = ctx.P
     n = 0
     for body, blk, t in P.call_sites(lambda f: strip_generic_args(f) in REMOVE_FNS):
@@ -651,11 +655,12 @@ def who1_who_may_remove(ctx):
         ctx.check('WHO-1', 'fs-remove|%s' % body.name, body.name in WHO_REMOVE_TABLE,
                   '%s called in %s' % (strip_generic_args(t.func), body.name), where(t))
     ctx.require(n >= 1, 'WHO-1: no std::fs::remove_* call found at all (anchor)')
+    del_ok = common.helper_closure(P, set(WHO_DELETE_CALLERS))
     for body, blk, t in P.call_sites(lambda f: blobwriter_method(f) == 'delete'):
         if blk.cleanup:
             continue
         top = top_function(P, body).name
-        ctx.check('WHO-1', 'blob-delete|%s' % top, top in WHO_DELETE_CALLERS,
+        ctx.check('WHO-1', 'blob-delete|%s' % top, top in del_ok,
                   'BlobWriter::delete called from %s' % body.name, where(t))
     ffs = flush_functions(ctx)
     flush = {f.name for f in ffs}
@@ -766,7 +771,7 @@ def lit3_wal_file_names(ctx):
     from mirlib.astlib import strings_in
     sites = {}
     for qual in ('Storage::persist_wal_segment', 'Storage::delete_wal_segments'):
-        fn = ast.fn(qual, f)
+        fn = ast.fn_closure(qual, f)
         fm = sorted({s for s in strings_in(fn, ast) if 'wal' in s and '{' in s})
         sites[qual] = fm
     rec = ast.fn('Storage::recover', f)
@@ -791,6 +796,9 @@ def flw18_segment_id_consistency(ctx):
                        'the id formatted into the file name', floor=3)
     P = ctx.P
     F = P.one('Storage::persist_wal_segment')
+    # helpers that build the file path / format the id are spliced in
+    F = common.inlined_anchor(P, F, lambda n: n.endswith('std::path::Path::join') or n.endswith('PathBuf::push')
+                              or n == 'alloc::fmt::format' or n.endswith('fmt::format'))
     du = DefUse(F)
     cfg = CFG(F)
     adds = calls_matching(F, lambda n: n.endswith('MetaStore::add_wal_segment'))
